@@ -368,6 +368,7 @@ def run(ctx):
     if si == 0:
         wrappers(ctx)
         refused_then_repaired(ctx)
+        dictionary_key_types(ctx)
     nval = (8000 if ctx.tier == 'quick' else 200000) // sn
     for i in range(nval):
         idx = i * sn + si
@@ -419,6 +420,19 @@ def refused_then_repaired(ctx):
             ctx.count('fresh_values_after_refusal', 40)
 
 
+def dictionary_key_types(ctx):
+    """Dictionaries keyed by every basic type - float keys included (DOUBLE is a basic type and a legal dict-entry key) -
+    alone and nested: homogeneous containers, so each encodes under its inferred signature and comes back equal."""
+    keys = [1.5, 0.0, -2.25, True, 7, 2 ** 40, 'k', M.Byte(3), M.Int16(-4), M.UInt16(5), M.UInt32(6), M.Int64(-7), M.UInt64(8),
+            M.ObjectPath('/a'), M.Signature('ai')]
+    for k in keys:
+        for v in (1, 'text', [1, 2], {'inner': 2}, 2.5, (1, 'x')):
+            for shape in (lambda d: d, lambda d: [d], lambda d: {'outer': d}, lambda d: ('s', d)):
+                val = shape({k: v})
+                check_value(ctx, val, {'kind': 'dict-keys'}, 'dictionary keyed by %s' % type(k).__name__)
+                ctx.count('dictionary_key_type_cases')
+
+
 def _safe_sig(v):
     try:
         return M.sigFromPy(v)
@@ -436,6 +450,8 @@ def replay(ctx, rp):
     elif case['kind'] == 'value':
         v, desc = value_case(rp.get('seed', 0), case['idx'])
         check_value(ctx, v, case, desc)
+    elif case['kind'] == 'dict-keys':
+        dictionary_key_types(ctx)
     elif case['kind'] == 'refused-then-repaired':
         refused_then_repaired(ctx)
     else:
